@@ -90,6 +90,16 @@ pub fn dkg_rounds<C: Suite>(
         r1_secret.insert(*id, s);
         r1_pkgs.insert(*id, p);
     }
+    dkg_round2_all::<C>(ids, r1_secret, r1_pkgs, coeffs)
+}
+
+/// Honest part 2 for all participants, from given round-one state (which a workload may have built by hand).
+pub fn dkg_round2_all<C: Suite>(
+    ids: &[Identifier<C>],
+    r1_secret: IdMap<C, dkg::round1::SecretPackage<C>>,
+    r1_pkgs: IdMap<C, dkg::round1::Package<C>>,
+    coeffs: IdMap<C, Vec<Sc<C>>>,
+) -> Result<DkgRun<C>, Error<C>> {
     let mut r2_secret = BTreeMap::new();
     let mut r2_pkgs = BTreeMap::new();
     for id in ids {
@@ -100,6 +110,22 @@ pub fn dkg_rounds<C: Suite>(
         r2_pkgs.insert(*id, p);
     }
     Ok(DkgRun { r1_secret, r1_pkgs, r2_secret, r2_pkgs, coeffs })
+}
+
+/// Honest part 3 for all participants of a run.
+pub fn dkg_finish<C: Suite>(n: u16, t: u16, ids: &[Identifier<C>], run: DkgRun<C>) -> Result<(Grp<C>, DkgRun<C>, IdMap<C, PublicKeyPackage<C>>), Error<C>> {
+    let mut kps = BTreeMap::new();
+    let mut pkps = BTreeMap::new();
+    for id in ids {
+        let (r1, r2) = dkg_inbox(&run, id);
+        let (kp, pkp) = C::api_dkg_part3(&run.r2_secret[id], &r1, &r2)?;
+        kps.insert(*id, kp);
+        pkps.insert(*id, pkp);
+    }
+    let mut idv = ids.to_vec();
+    sort_ids_numeric::<C>(&mut idv);
+    let pkp = pkps[&idv[0]].clone();
+    Ok((Grp { n, t, ids: idv, kps, pkp, shares: BTreeMap::new(), secret: None, source: "dkg" }, run, pkps))
 }
 
 pub fn dkg_inbox<C: Suite>(
